@@ -239,15 +239,20 @@ class STimedelta:
     def total_seconds(self):
         return Sym(z3.ToReal(_i(self.total_us)) / 10**6)
 
-    def __radd__(self, o):
-        """datetime + timedelta with the timedelta symbolic"""
-        if isinstance(o, _dt.datetime):
-            return from_concrete(o) + self
-        return NotImplemented
-
     def __rsub__(self, o):
         if isinstance(o, _dt.datetime):
             return from_concrete(o) - self
+        return NotImplemented
+
+    def __floordiv__(self, o):
+        """timedelta // timedelta -> int (floor); timedelta // int -> timedelta"""
+        if isinstance(o, (STimedelta, _dt.timedelta)):
+            d = td_us(o)
+            if isinstance(d, int) and d > 0:
+                return mk(_i(self.total_us) / d)
+            raise OutsideSubset("timedelta // symbolic timedelta")
+        if isinstance(o, int) and not isinstance(o, bool) and o > 0:
+            return STimedelta(mk(_i(self.total_us) / o))
         return NotImplemented
 
     def _cmp(self, o, op):
@@ -271,6 +276,8 @@ class STimedelta:
         return self._cmp(o, lambda a, b: a == b)
 
     def __add__(self, o):
+        if isinstance(o, _dt.datetime):
+            o = from_concrete(o)
         if isinstance(o, SDateTime):
             return add_timedelta(o, self.total_us)
         return STimedelta(self.total_us + td_us(o))
